@@ -135,6 +135,28 @@ def check(ctx, rep, upto=None):
     rep.ob('R4', 'new/initial-state', oknew, m['new'].where(), 'new() = (state: INITIAL=%s, value: None)' % E if oknew else 'new() does not start as (constant state, None)')
     if E is None:
         return
+    # every other way to obtain a holder starts in the same state: a derived Default zero-initialises the state word
+    dflt = [i for i in mac.impls_of('core::default::Default') if i.get('self_adt') == H]
+    for i in dflt:
+        if i.get('derived'):
+            okd = str(E) == '0'
+            rep.ob('R4', 'default/initial-state', okd, m['new'].where(),
+                   'derived Default: state word 0 = INITIAL' if okd else
+                   'a holder built by the derived Default starts with state 0, which is not INITIAL (%s): it is born in another protocol state' % E)
+        else:
+            db = [mac.bodies.get(it['path']) for it in i['items'] if it['name'] == 'default']
+            okd = False
+            if db and db[0] is not None:
+                rr = ret_terms(Terms(inl(mac, db[0])), [0])
+                if len(rr) == 1 and list(rr)[0][0] == 'adt':
+                    fs2 = dict(list(rr)[0][3])
+                    st2 = fs2.get(statef)
+                    news2 = [y for y in walk(st2)] if st2 is not None else []
+                    news2 = [y for y in news2 if term_callee_is(y, AT + 'new')]
+                    okd = len(news2) == 1 and evalc(mac, news2[0][2][0])[0] == 'const' and evalc(mac, news2[0][2][0])[2] == E
+                    cv2 = fs2.get(cellf)
+                    okd = okd and cv2 is not None and term_callee_is(cv2, 'core::cell::UnsafeCell::new') and cv2[2][0][0] == 'adt' and cv2[2][0][2] == 'None'
+            rep.ob('R4', 'default/initial-state', okd, m['new'].where(), 'Default::default() = (INITIAL, None)' if okd else 'Default::default() does not start as (INITIAL, None)')
     # ---- get(): R3
     gb = inl(mac, m['get'])
     Tg = Terms(gb)
